@@ -374,9 +374,11 @@ def canonClient (tb : Tables) (cp : String) (relayed : List Bytes) (k : Sink) : 
   -- a Content-Length header must match the body
   let cl := base.ch.get (s "Content-Length")
   let cb := if cl.isEmpty then base.cb else
-    match bodyLen, parseNat cl with
-    | some n, some m => if n == m then base.cb else "CONTENT-LENGTH-MISMATCH:" ++ base.cb
-    | _, _ => "CONTENT-LENGTH-MISMATCH:" ++ base.cb
+    -- net/http drops a Content-Length that is not a non-negative number; a valid one must match
+    match (if cl.all isDigitByte then parseNat cl else none) with
+    | none => base.cb
+    | some m => if m ≥ 9223372036854775808 then base.cb
+      else if bodyLen == some m then base.cb else "CONTENT-LENGTH-MISMATCH:" ++ base.cb
   { base with cb := cb, ch := base.ch.filter fun e => e.1 != s "Content-Length" }
 
 def renderErr : Option Err → String
@@ -502,6 +504,13 @@ def oracleC03 (p : Parsed) (fs : List (String × String)) : Option String :=
           | none => false
       let tag := if o.ccodec == o.scodec && (o.cform == .grpcWeb || o.cform == .connectStream) && cut
         then " [reframe-truncated-response]" else ""
+      -- a gRPC client is told in the trailers: a cut last message followed by an error status is the
+      -- only thing that can be done once bytes of the message were forwarded
+      let grpcCutWithError := o.cform == .grpc && o.ccodec == o.scodec && cut &&
+        (match (fieldOf fs "end").splitOn ":" with
+          | ["trailer", c, _, _] => c != "0"
+          | _ => false)
+      if grpcCutWithError then none else
       some ("malformed client body: " ++ cb ++ tag) else
     let places := match o.cform with
       | .grpc => ["hdr", "trailer"]
@@ -629,7 +638,15 @@ def oracleC01 (p : Parsed) (ex : Expect) (fs : List (String × String)) : Option
         | none => (decodePayload o.scodec o.sReqComp o.sReqComp.isSome br).map ([·])
       let clientOk := ((fieldOf fs "end").splitOn ":").getD 1 "" == "0"
       match got with
-      | none => some "backend received a request body that does not decode in the negotiated protocol/codec/compression"
+      | none =>
+        -- request-side twin of the known class: uncompressed frame to a backend without envelopes
+        let body := p.sc.src.chunks.flatten
+        let hasPlainFrame := match splitFramesFuel (body.length + 1) body with
+          | some frames => frames.any fun f => f.1 == 0
+          | none => false
+        let tag := if o.serverEnveloper.isNone && o.clientEnveloper.isSome && o.sReqComp.isSome && hasPlainFrame
+          then " [uncompressed-frame-to-unenveloped-peer]" else ""
+        some ("backend received a request body that does not decode in the negotiated protocol/codec/compression" ++ tag)
       | some vs =>
         if vs == ex.reqValues then none
         else if !clientOk && vs.isPrefixOf ex.reqValues then none   -- the RPC failed visibly; what was handed on is unaltered
@@ -651,7 +668,16 @@ def oracleC01 (p : Parsed) (ex : Expect) (fs : List (String × String)) : Option
       | some 0 =>
         if ex.errCode != 0 then some "backend failed the RPC but the client saw success" else
         match clientMessages o.ccodec comp (fieldOf fs "cb") with
-        | none => some "client received response data that does not decode in its codec/compression"
+        | none =>
+          -- known class: a frame with compressed flag 0 inside a compression-declared stream, bound
+          -- for a peer without envelopes, is sent raw under Content-Encoding
+          let writes := p.sc.script.foldl (fun acc op => match op with | .write b => acc ++ b | _ => acc) ([] : Bytes)
+          let hasPlainFrame := match splitFramesFuel (writes.length + 1) writes with
+            | some frames => frames.any fun f => f.1 == 0
+            | none => false
+          let tag := if o.clientEnveloper.isNone && o.serverEnveloper.isSome && comp.isSome && hasPlainFrame
+            then " [uncompressed-frame-to-unenveloped-peer]" else ""
+          some ("client received response data that does not decode in its codec/compression" ++ tag)
         | some vs => if vs == ex.respValues then none else some "client received different response messages than the backend sent"
       | some c =>
         if ex.errCode == 0 && ex.sizesSafe then some s!"clean RPC with fitting sizes was failed (code {c})" else none
@@ -669,6 +695,77 @@ def oracleC04 (p : Parsed) (ex : Expect) (fs : List (String × String)) : Option
       else if d.toNat? != some ex.details then some s!"error details lost: backend {ex.details}, client {d}"
       else none
     | _ => none
+  | _ => none
+
+/-- C02: what the service handler receives for a transcoded request is a valid request of one of
+    the service's protocols, with one of its codecs and compressions; acceptable parts of the client's
+    triple are kept; envelopes are legal and consistent with the declared compression. -/
+def oracleC02 (p : Parsed) (fs : List (String × String)) : Option String :=
+  match branchOf p with
+  | .transcoded o =>
+    if fieldOf fs "disp" != "svc" then none else
+    let m := o.conf
+    let bh := parseHdrField (fieldOf fs "bh")
+    let ct := bh.get (s "Content-Type")
+    -- which protocol / codec does the request claim?
+    let claim : Option (ServerForm × Bytes) :=
+      if hasPrefix (s "application/connect+") ct then some (.connectStream, ct.drop 20)
+      else if hasPrefix (s "application/grpc-web+") ct then some (.grpcWeb, ct.drop 21)
+      else if hasPrefix (s "application/grpc+") ct then some (.grpc, ct.drop 17)
+      else if hasPrefix (s "application/") ct then some (.connectUnary, ct.drop 12)
+      else none
+    match claim with
+    | none => some "backend request has no content-type of a target protocol"
+    | some (sf, codec) =>
+      if !m.protocols.contains sf.proto then some "backend addressed in a protocol the service does not accept"
+      else if !m.codecs.contains codec then some "backend addressed with a codec the service does not accept"
+      else if m.protocols.contains o.cform.proto && sf.proto != o.cform.proto then some "acceptable client protocol was converted"
+      else if m.codecs.contains o.ccodec && codec != o.ccodec then some "acceptable client codec was converted"
+      else if (sf == .connectUnary) != (m.streamType == .unary && sf.proto == .connect) then some "Connect unary/stream form does not fit the method"
+      else
+        let compHdr : Bytes := match sf with
+          | .grpc | .grpcWeb => s "Grpc-Encoding"
+          | .connectStream => s "Connect-Content-Encoding"
+          | _ => s "Content-Encoding"
+        let comp := nonIdentity (bh.get compHdr)
+        let compBad := match comp with
+          | some z => !m.compressors.contains z
+          | none => false
+        if compBad then some "backend addressed with a compression the service does not accept" else
+        let keepBad := match o.cReqComp with
+          | some z => m.compressors.contains z && comp != some z
+          | none => comp.isSome
+        if keepBad then some "acceptable client compression was not kept (or a compression was invented)" else
+        -- control headers of other protocols must not contradict
+        let foreign : List Bytes := match sf with
+          | .grpc | .grpcWeb => [s "Content-Encoding", s "Connect-Content-Encoding"]
+          | .connectStream => [s "Content-Encoding", s "Grpc-Encoding"]
+          | _ => [s "Grpc-Encoding", s "Connect-Content-Encoding"]
+        if foreign.any (fun k => bh.has k) then some "left-over compression header of another protocol contradicts the request" else
+        if sf == .grpc && bh.get (s "Te") != s "trailers" then some "gRPC request without Te: trailers" else
+        if sf == .grpc && fieldOf fs "bv" != "2" then some "gRPC request not presented as HTTP/2" else
+        if sf == .connectUnary && bh.get (s "Connect-Protocol-Version") != [0x31] then some "Connect unary request without protocol version" else
+        let bm := fieldOf fs "bm"
+        if bm != toHex sPOST && !(sf == .connectUnary && bm == toHex sGET) then some "backend request method is neither POST nor an allowed GET" else
+        if fieldOf fs "bp" != toHex m.path then some "backend request path is not the method's path" else
+        if bm == toHex sPOST && fieldOf fs "bq" != "-" then some "POST request line carries a query string" else
+        -- body: complete reads must be a whole number of legal envelopes
+        if fieldOf fs "bre" != "eof" then none else
+        -- a body shorter than its declared Content-Length cannot end cleanly under a real HTTP stack
+        let bodyLen := (p.sc.src.chunks.map List.length).sum
+        if p.sc.req.contentLength ≥ 0 && p.sc.req.contentLength != bodyLen then none else
+        match sf.enveloper with
+        | none => none
+        | some _ =>
+          let br := (fromHex (fieldOf fs "br")).getD []
+          match splitFramesFuel (br.length + 1) br with
+          | none => some "backend read a body that is not a whole number of envelopes, yet it ended cleanly"
+          | some frames =>
+            if frames.any (fun f => f.1 > 1) then some "illegal envelope flags handed to the backend"
+            else if comp.isNone && frames.any (fun f => f.1 == 1) &&
+                -- (a client stream that itself flags frames without declaring a compression is forwarded as it is)
+                !(o.cReqComp.isNone && o.clientEnveloper.isSome) then some "compressed flag without declared compression"
+            else none
   | _ => none
 
 def controlKeys : List Bytes :=
@@ -722,6 +819,7 @@ def specE2E (prop : String) (hexJson : String) (res : List String) : String :=
       | "C18" => some (oracleC18 p fs)
       | "C03" => some (oracleC03 p fs)
       | "C13" => some (oracleC13 p res)
+      | "C02" => some (oracleC02 p fs)
       | "C01" => (parseExpect p.json).map fun ex => oracleC01 p ex fs
       | "C04" => (parseExpect p.json).map fun ex => oracleC04 p ex fs
       | "C05" => some (oracleC05 p (parseExpect p.json) fs)
